@@ -61,6 +61,32 @@ type Conf struct {
 	Caps  Caps              `json:"caps"`
 }
 
+// FlexMap decodes a TLC function with string domain, which ToJson renders as [] when it is empty.
+func FlexMap[T any](raw json.RawMessage) (map[string]T, error) {
+	out := map[string]T{}
+	for _, c := range raw {
+		if c == ' ' || c == '\n' || c == '\t' {
+			continue
+		}
+		if c == '[' {
+			var l []T
+			if err := json.Unmarshal(raw, &l); err != nil {
+				return nil, err
+			}
+			if len(l) != 0 {
+				return nil, fmt.Errorf("non-empty array where a string-keyed function is expected: %s", raw)
+			}
+			return out, nil
+		}
+		break
+	}
+	if len(raw) == 0 {
+		return out, nil
+	}
+	err := json.Unmarshal(raw, &out)
+	return out, err
+}
+
 func ParseConf(hdr map[string]any) (*Conf, error) {
 	raw, ok := hdr["conf"]
 	if !ok {
@@ -249,34 +275,44 @@ func Variants(inst string) []Variant {
 	case "vsa":
 		// rate side derived by newVerifySourceAddressRateLimiter from the connLimiter: tick = 1/sourceAddressRPS = 10 s
 		return []Variant{
-			{Name: "vsa32/24", V4Len: []int{32, 24}, V6Len: []int{64}, Tick: s10,
+			{Name: "vsa32/24", V4Len: []int{32, 24}, V6Len: []int{64}, Tick: s10, NP: []netip.Prefix{pf("::1/128")},
+				Addr: addrs("a", "1.2.3.4", "b", "1.2.3.5", "x", "2001:db8::1", "l", "::1")},
+			{Name: "vsa25/8", V4Len: []int{25, 8}, V6Len: []int{56}, Tick: s10, NP: []netip.Prefix{pf("fe80::/10")},
+				Addr: addrs("a", "77.0.0.127", "b", "77.0.0.128", "x", "2001:db8:0:100::", "l", "fe80::1")},
+			// (an IPv4-mapped source cannot occur here: net.Addr.String() prints it dotted and VerifySourceAddress parses IPv4)
+			{Name: "vsa31/30", V4Len: []int{31, 30}, V6Len: []int{128}, Tick: s10, NP: []netip.Prefix{pf("2001:db8:ffff::/48")},
+				Addr: addrs("a", "200.0.0.1", "b", "200.0.0.2", "x", "::", "l", "2001:db8:ffff::1")},
+		}
+	case "vsanp":
+		return []Variant{
+			{Name: "vsanp24in16", V4Len: []int{32}, Tick: s10,
 				NP:   []netip.Prefix{pf("::1/128"), pf("10.1.1.0/24"), pf("10.1.0.0/16")},
-				Addr: addrs("a", "1.2.3.4", "b", "1.2.3.5", "p", "10.1.1.7", "q", "10.1.2.7", "x", "2001:db8::1", "l", "::1")},
-			{Name: "vsa25/8", V4Len: []int{25, 8}, V6Len: []int{56}, Tick: s10,
+				Addr: addrs("p", "10.1.1.7", "q", "10.1.2.7", "l", "::1", "a", "10.2.0.1")},
+			{Name: "vsanp25in23", V4Len: []int{24}, Tick: s10,
 				NP:   []netip.Prefix{pf("fe80::/10"), pf("192.168.0.128/25"), pf("192.168.0.0/23")},
-				Addr: addrs("a", "77.0.0.127", "b", "77.0.0.128", "p", "192.168.0.255", "q", "192.168.1.1", "x", "2001:db8:0:100::", "l", "fe80::1")},
+				Addr: addrs("p", "192.168.0.255", "q", "192.168.1.1", "l", "fe80::1", "a", "192.168.2.1")},
 		}
 	case "c4":
 		return []Variant{
-			{Name: "c16/24", C4Len: []int{16, 24}, Tick: s1, CNP: []netip.Prefix{pf("10.1.1.0/24"), pf("10.1.0.0/16")},
-				Addr: addrs("a", "1.2.3.4", "a2", "1.2.3.200", "b", "1.2.4.4", "c", "1.3.3.4", "p", "10.1.1.7", "q", "10.1.2.7")},
-			{Name: "c24/32", C4Len: []int{24, 32}, Tick: s1, CNP: []netip.Prefix{pf("192.168.0.128/25"), pf("192.168.0.0/24")},
-				Addr: addrs("a", "9.9.9.9", "a2", "9.9.9.9", "b", "9.9.9.8", "c", "9.9.8.9", "p", "192.168.0.128", "q", "192.168.0.127")},
-			{Name: "c1/31", C4Len: []int{1, 31}, Tick: s1, CNP: []netip.Prefix{pf("5.5.5.5/32"), pf("5.5.5.4/31")},
-				Addr: addrs("a", "128.0.0.2", "a2", "128.0.0.3", "b", "128.0.0.4", "c", "127.255.255.255", "p", "5.5.5.5", "q", "5.5.5.4")},
-			{Name: "c16/17", C4Len: []int{16, 17}, Tick: s1, CNP: []netip.Prefix{pf("127.0.0.1/8"), pf("64.0.0.1/2")},
-				Addr: addrs("a", "10.0.128.1", "a2", "10.0.255.254", "b", "10.0.127.255", "c", "10.1.128.1", "p", "127.255.255.255", "q", "126.0.0.1")},
+			{Name: "c24/16", C4Len: []int{24, 16}, Tick: s1, CNP: []netip.Prefix{pf("10.1.1.0/24"), pf("10.1.0.0/16")},
+				Addr: addrs("a", "1.2.3.4", "a2", "1.2.3.200", "b", "1.2.4.4", "c", "1.3.3.4", "d", "1.2.255.255", "p", "10.1.1.7", "q", "10.1.2.7")},
+			{Name: "c32/24", C4Len: []int{32, 24}, Tick: s1, CNP: []netip.Prefix{pf("192.168.0.128/25"), pf("192.168.0.0/24")},
+				Addr: addrs("a", "9.9.9.9", "a2", "9.9.9.9", "b", "9.9.9.8", "c", "9.9.8.9", "d", "9.9.9.0", "p", "192.168.0.128", "q", "192.168.0.127")},
+			{Name: "c31/1", C4Len: []int{31, 1}, Tick: s1, CNP: []netip.Prefix{pf("5.5.5.5/32"), pf("5.5.5.4/31")},
+				Addr: addrs("a", "128.0.0.2", "a2", "128.0.0.3", "b", "128.0.0.4", "c", "127.255.255.255", "d", "255.255.255.255", "p", "5.5.5.5", "q", "5.5.5.4")},
+			{Name: "c18/16", C4Len: []int{18, 16}, Tick: s1, CNP: []netip.Prefix{pf("127.0.0.1/8"), pf("64.0.0.1/2")},
+				Addr: addrs("a", "10.0.128.1", "a2", "10.0.191.254", "b", "10.0.127.255", "c", "10.1.128.1", "d", "10.0.0.0", "p", "127.255.255.255", "q", "126.0.0.1")},
 		}
 	case "c6":
 		return []Variant{
-			{Name: "c56/48", C4Len: []int{32}, C6Len: []int{56, 48}, Tick: s1, CNP: []netip.Prefix{pf("::1/128")},
+			{Name: "c48/56", C4Len: []int{32}, C6Len: []int{48, 56}, Tick: s1, CNP: []netip.Prefix{pf("::1/128")},
 				Addr: addrs("x1", "2001:db8:1:ff::", "x2", "2001:db8:1:100::", "y", "2001:db8:2:100::", "m", "::ffff:1.2.3.4", "l", "::1", "a", "1.2.3.4", "z", "")},
-			{Name: "c64/32", C4Len: []int{24}, C6Len: []int{64, 32}, Tick: s1, CNP: []netip.Prefix{pf("fe80::/10")},
+			{Name: "c32/64", C4Len: []int{24}, C6Len: []int{32, 64}, Tick: s1, CNP: []netip.Prefix{pf("fe80::/10")},
 				Addr: addrs("x1", "2001:db8:1:1::1", "x2", "2001:db8:1:2::1", "y", "2001:db9:1:1::1", "m", "::ffff:1.2.3.4", "l", "fe80::1", "a", "1.2.3.4", "z", "")},
-			{Name: "c128/127", C4Len: []int{8}, C6Len: []int{128, 127}, Tick: s1, CNP: []netip.Prefix{pf("::ffff:9.0.0.0/104")},
+			{Name: "c127/128", C4Len: []int{8}, C6Len: []int{127, 128}, Tick: s1, CNP: []netip.Prefix{pf("::ffff:9.0.0.0/104")},
 				Addr: addrs("x1", "2001:db8::2", "x2", "2001:db8::3", "y", "2001:db8::4", "m", "::ffff:1.2.3.4", "l", "::ffff:9.2.3.4", "a", "1.2.3.4", "z", "")},
 		}
-	case "joint", "jointL":
+	case "joint", "jointM", "jointL":
 		return []Variant{
 			{Name: "j24/16", V4Len: []int{24}, V6Len: []int{56}, C4Len: []int{24, 16}, Tick: s1,
 				NP: []netip.Prefix{pf("127.0.0.0/8")}, CNP: []netip.Prefix{pf("127.0.0.0/8")},
@@ -478,15 +514,16 @@ func (b *OB) boundOK(slack int64) (bool, int, int64) {
 
 // Oracle holds the ideal (never forgotten) buckets of one limiter, charged by the documented accounting.
 type Oracle struct {
-	C      *Conf
-	Tick   int64
-	Grace  int64
-	Now    int64
-	Glob   *OB
-	NP     []*OB
-	Sub    map[string]*OB
-	Slack  int64
-	Desync bool // the real limiter took a decision the ledger cannot account for: only R1 is monitored from here on
+	C         *Conf
+	Tick      int64
+	Grace     int64
+	Now       int64
+	Glob      *OB
+	NP        []*OB
+	Sub       map[string]*OB
+	Slack     int64
+	Ambiguous int
+	Desync    bool // the real limiter took a decision the ledger cannot account for: only R1 is monitored from here on
 }
 
 func NewOracle(c *Conf, tick time.Duration) *Oracle {
@@ -581,7 +618,9 @@ func (o *Oracle) Observe(a string, ok bool) []Finding {
 					b.Name, b.Burst, time.Duration(b.Tok), cnt, time.Duration(span), a)})
 			}
 		}
-		if !wantOK && !o.Desync {
+		if !wantOK && !o.Desync && o.Slack > 0 && o.near(ch) {
+			o.Ambiguous++ // within the float slack of a boundary: follow the code
+		} else if !wantOK && !o.Desync {
 			if len(out) == 0 {
 				out = append(out, Finding{"L2:grant-where-ledger-refuses", fmt.Sprintf("Allow(%s) granted although bucket %s holds less than a token under the documented accounting (no window bound exceeded)", a, by)})
 			}
@@ -594,6 +633,11 @@ func (o *Oracle) Observe(a string, ok bool) []Finding {
 			b.Def += b.Tok
 			b.ExpAt = o.Now + b.Def + o.Grace
 		}
+		return out
+	}
+	if wantOK && !o.Desync && o.Slack > 0 && o.near(ch) {
+		o.Ambiguous++
+		o.Desync = true // which buckets were charged is not known
 		return out
 	}
 	if wantOK && !o.Desync {
@@ -613,6 +657,20 @@ func (o *Oracle) Observe(a string, ok bool) []Finding {
 		b.ExpAt = o.Now + b.Def + o.Grace
 	}
 	return out
+}
+
+// near: some limited bucket of the chain is within Slack of the one-token boundary
+func (o *Oracle) near(ch []*OB) bool {
+	for _, b := range ch {
+		if b.Tok == 0 {
+			continue
+		}
+		m := b.Burst*b.Tok - b.Def - b.Tok // refill-ns above (>= 0) or below (< 0) one token
+		if m < o.Slack && m > -o.Slack {
+			return true
+		}
+	}
+	return false
 }
 
 func (o *Oracle) describe(ch []*OB) string {
